@@ -17,26 +17,27 @@ import (
 // SV is a specification value: a term with its Go type (nil type = untyped constant) and, for pointers,
 // possibly a statically known address.
 type SV struct {
-	t    *Term
-	typ  types.Type
-	addr *Addr
+	t       *Term
+	typ     types.Type
+	addr    *Addr
 	untyped bool
-	pkg  *types.Package // package reference (for pkg.Name selectors)
-	tname types.Type    // a type used as a value (conversion target / typeis argument)
-	all  bool           // the [*] index marker
+	pkg     *types.Package // package reference (for pkg.Name selectors)
+	tname   types.Type     // a type used as a value (conversion target / typeis argument)
+	all     bool // the [*] index marker
+	wlog    bool // the emission log of a writer (assigns location)
 }
 
 type evalEnv struct {
-	e      *Enc
-	pkg    *types.Package
-	st     *State
-	old    *State
-	vars   map[string]SV
+	e       *Enc
+	pkg     *types.Package
+	st      *State
+	old     *State
+	vars    map[string]SV
 	oldVars map[string]SV
-	bound  map[string]SV
-	fn     *ssa.Function
-	depth  int
-	self   SV // for type contracts: the function value being called
+	bound   map[string]SV
+	fn      *ssa.Function
+	depth   int
+	self    SV // for type contracts: the function value being called
 }
 
 func (env *evalEnv) clone() *evalEnv {
@@ -599,6 +600,27 @@ func (env *evalEnv) call(v *ast.CallExpr) SV {
 		case "floor":
 			a := env.eval(v.Args[0])
 			return SV{t: tb.ToReal(tb.ToInt(a.t)), typ: types.Typ[types.Float64]}
+		case "log":
+			w := env.eval(v.Args[0])
+			return SV{wlog: true, t: e.writerRef(w.t, w.typ), typ: types.Typ[types.Int]}
+		case "loglen":
+			w := env.eval(v.Args[0])
+			return SV{t: e.logLen(env.st, e.writerRef(w.t, w.typ)), typ: types.Typ[types.Int]}
+		case "logkind", "logint", "logstr":
+			w := env.eval(v.Args[0])
+			i := env.eval(v.Args[1])
+			name := map[string]string{"logkind": "W:kind", "logint": "W:int", "logstr": "W:str"}[id.Name]
+			t := tb.Select(tb.Select(e.reg(env.st, e.wReg(name)), e.writerRef(w.t, w.typ)), i.t)
+			if id.Name == "logstr" {
+				return SV{t: t, typ: types.Typ[types.String]}
+			}
+			return SV{t: t, typ: types.Typ[types.Int]}
+		case "runecount":
+			a := env.eval(v.Args[0])
+			return SV{t: e.runeCount(a.t), typ: types.Typ[types.Int]}
+		case "runeat":
+			a, i := env.eval(v.Args[0]), env.eval(v.Args[1])
+			return SV{t: e.runeAt(a.t, i.t), typ: types.Typ[types.Rune]}
 		case "ref": // the reference behind a slice / pointer
 			a := env.eval(v.Args[0])
 			if a.t.sort == "Slice" {
